@@ -568,3 +568,11 @@ for k, n in (("C07", "VH_T_Heartbeat"), ("C09", "VH_L_Heartbeat")):
     if src:
         h = dict(src[0]); h["opts"] = dict(h["opts"]); h["opts"]["warm"] = 1; h["opts_thorough"] = dict(h["opts"])
         reg[k]["harnesses"].append(h)
+# eighth round (variants I): start-up and data-source obligations are also owed to the properties whose state they protect
+for k in ("C09", "C07", "C05", "C01"):
+    reg[k]["harnesses"] += [dict(W_SQ, labels=["C06:"]), dict(W_PG, labels=["C06:"])]
+    reg[k]["explanation"] += "; start-up on an existing database touches no stored row (real Start of both stores)"
+for k in ("C16", "C01", "C05"):
+    if not any(h["name"] == "VH_C06_Open" for h in reg[k]["harnesses"]):
+        reg[k]["harnesses"].append({"name": "VH_C06_Open", "pkg": SQ, "labels": ["C06:"], "reach": ["done"]})
+reg["C16"]["explanation"] += "; all-or-nothing batches rest on the SQL engine's rollback journal: the data source name the real constructor opens carries no journal/synchronous weakening the operator did not configure"
